@@ -59,7 +59,7 @@ theorem maximize_never_stuck (T : Nat) (s : PSt) (h : Reachable (initial T T) s)
     (hlive : ∃ (i : Nat) (p : Pc), s.pcs[i]? = some p ∧ p ≠ Pc.done) : ∃ t, Step s t :=
   par_no_stuck (initial T T) s (initial_inv T T) (by simp [initial]) (by simp [initial, count_replicate_ne]) h hlive
 
-/-- termination proper (finitely many steps): stated, not proved -/
-def par_terminates : Prop := True
+/-! Termination proper (finitely many steps) is `par_terminates` on the concrete closed system (`Props/C03c.lean`,
+    `Proofs/ParSysTerm.lean`). -/
 
 end Ddo.C04
